@@ -14,9 +14,12 @@ import pexpect.pxssh as PX
 import pexpect.pty_spawn as PS
 
 ENCODES = ['pexpect.pxssh.pxssh.login', 'pexpect.pxssh.pxssh.sync_original_prompt', 'pexpect.pxssh.pxssh.set_unique_prompt',
-           'pexpect.pxssh.pxssh.prompt', 'pexpect.pxssh.pxssh.levenshtein_distance', 'pexpect.pxssh.pxssh.logout']
+           'pexpect.pxssh.pxssh.prompt', 'pexpect.pxssh.pxssh.levenshtein_distance', 'pexpect.pxssh.pxssh.logout',
+           'pexpect.pxssh.pxssh.try_read_prompt']
 STUBS = ['pxssh.expect/sendline/close/_spawn/try_read_prompt scripted: every expect returns a symbolic index valid for '
-         'its pattern list (or raises EOF/TIMEOUT when the marker is not listed)', 'time.sleep/time.time in pexpect.pxssh: virtual clock']
+         'its pattern list (or raises EOF/TIMEOUT when the marker is not listed)', 'time.sleep/time.time in pexpect.pxssh: virtual clock',
+         'G6: read_nonblocking scripted (one character after an arbitrary delay / TIMEOUT after exactly its timeout / EOF); '
+         'time values are exact whole seconds (Tick): comparisons with the float limits are integer arithmetic']
 ASSUMPTIONS = ['A6: ssh prints what the scripted peer prints', 'dialogues of <= 6 expect outcomes',
                'pattern matching itself is covered by C01-C04; here an outcome IS the index']
 PASSWORD = 'SECRET-PW'
@@ -289,9 +292,140 @@ def G5_logout(j):
     return 2 + j
 
 
+class TickClock:
+    """virtual clock in whole seconds; the harness uses timeout multipliers 10 and 20 so that try_read_prompt's three
+    timeouts (0.5, 0.1 and 3.0 times the multiplier) are whole seconds too and no fractional arithmetic is needed"""
+
+    def __init__(self):
+        self.ticks = 0
+
+    def time(self):
+        return Tick(self.ticks)
+
+    def sleep(self, d):
+        pass
+
+
+class Tick:
+    """a time value: an exact (symbolic) whole number of seconds.  Differences are Ticks; comparison with a number
+    is exact integer arithmetic (n < f  <=>  n < ceil(f)), which keeps IEEE float reasoning out of the solver"""
+
+    def __init__(self, n):
+        self.n = n
+
+    def __sub__(self, o):
+        return Tick(self.n - (o.n if type(o) is Tick else o))
+
+    def __add__(self, o):
+        return Tick(self.n + (o.n if type(o) is Tick else o))
+
+    @staticmethod
+    def _c(o):
+        import math
+        if type(o) is Tick:
+            return o.n, o.n
+        return math.floor(o), math.ceil(o)
+
+    def __lt__(self, o):
+        return self.n < self._c(o)[1]
+
+    def __ge__(self, o):
+        return self.n >= self._c(o)[1]
+
+    def __le__(self, o):
+        return self.n <= self._c(o)[0]
+
+    def __gt__(self, o):
+        return self.n > self._c(o)[0]
+
+
+class CharSource(PX.pxssh):
+    """pxssh whose read_nonblocking plays [(kind, dt)]: kind 0 one character after dt ticks, 1 TIMEOUT after exactly
+    the given timeout, 2 EOF; every call is recorded with the tick at which it started"""
+
+    def __init__(self, script, clk):
+        PX.pxssh.__init__(self)
+        self.script, self.clk, self.calls, self.n = list(script), clk, [], 0
+
+    def read_nonblocking(self, size=1, timeout=-1):
+        self.calls.append((size, timeout, self.clk.ticks))
+        if not self.script:
+            kind, dt = 1, 0
+        else:
+            kind, dt = self.script.pop(0)
+        if kind == 0:
+            self.clk.ticks = self.clk.ticks + dt
+            self.n += 1
+            return b'abcdefgh'[self.n - 1:self.n]
+        if kind == 2:
+            raise EOF('scripted')
+        self.clk.ticks = self.clk.ticks + int(round(timeout))
+        raise TIMEOUT('scripted')
+
+
+@obligation(params=dict(k0=Int(0, 2), k1=Int(0, 2), k2=Int(0, 2), k3=Int(0, 2), d0=Int(0, 100), d1=Int(0, 100), d2=Int(0, 100),
+                        d3=Int(0, 100), m=Int(1, 2)),
+            tags={2: 'ended at the first TIMEOUT', 3: 'ended because the total time was used up', 4: 'EOF propagated',
+                  5: 'nothing read'},
+            timeout=600, split=('m', 'k0'),
+            note='try_read_prompt(10*m) over a virtual clock and a scripted read_nonblocking: returns exactly '
+                 'the characters read, in order; first read waits 0.5*m, later ones 0.1*m, one character each; no read '
+                 'starts once 3.0*m has elapsed; stops at the first TIMEOUT; EOF is not swallowed')
+def G6_try_read_prompt(k0, k1, k2, k3, d0, d1, d2, d3, m):
+    m = pick(m, 1, 2)
+    ks = [pick(k0, 0, 2), pick(k1, 0, 2), pick(k2, 0, 2), pick(k3, 0, 2)]
+    script = list(zip(ks, [d0, d1, d2, d3]))
+    clk = TickClock()
+    s = CharSource(script, clk)
+    eof = False
+    with patched(PX, time=clk):
+        try:
+            got = s.try_read_prompt(10.0 * m)
+        except EOF:
+            eof = True
+    calls = s.calls
+    if not calls:
+        return 0
+    total = 30 * m
+    # what a correct run consumes: characters until the first TIMEOUT/EOF/end of script or until the total is used up
+    want_n, t, end = 0, 0, 'script'
+    for i in range(5):
+        if t >= total:
+            end = 'total'
+            break
+        kind, dt = script[i] if i < 4 else (1, 0)
+        if kind == 0:
+            want_n += 1
+            t = t + dt
+        else:
+            end = 'eof' if kind == 2 else 'timeout'
+            break
+    for i, (size, tmo, at) in enumerate(calls):
+        if size != 1:
+            return 0
+        if tmo != (5.0 * m if i == 0 else 1.0 * m):
+            return 0
+        if at >= total:
+            return 0                       # a read was started although the total time was used up
+    if end == 'eof':
+        return 4 if eof else 0
+    if eof:
+        return 0
+    if len(calls) != want_n + (1 if end == 'timeout' else 0):
+        return 0
+    if got != b'abcdefgh'[:want_n]:
+        return 0
+    if want_n == 0:
+        return 5
+    return 3 if end == 'total' else 2
+
+
+
 def dry_runs():
     yield '_login_case', dict(o0=2, o1=1, o2=0, o3=0, u0=1, u1=0, u2=0, pa=1, pb=1, auto=True, sync=True, quiet=True)
     yield 'G2_levenshtein', dict(a='abc', b='axc')
+    yield 'G6_try_read_prompt', dict(k0=0, k1=0, k2=1, k3=0, d0=3, d1=1, d2=0, d3=0, m=1)
+    yield 'G6_try_read_prompt', dict(k0=0, k1=0, k2=0, k3=0, d0=31, d1=1, d2=0, d3=0, m=1)
 
 
 PROBES = []      # representation probes (harness/probes.py) this harness depends on
